@@ -328,6 +328,11 @@ func runC01(c *Ctx) error {
 						}
 						// a streamed send whose reader starts with an empty read (the first frame on the wire is an empty non-final one)
 						bops = append(bops, sendOp{API: "file", Opcode: 2, Reader: newChunkReader([][]byte{{}, []byte("after an empty first read")}, "sep")})
+						// content that compresses extremely well (ratios far above 100:1) is content like any other
+						zeros := make([]byte, 262144)
+						line := bytes.Repeat([]byte("2026-10-02T00:00:00Z INFO request served in 1ms\n"), 4000)
+						bops = append(bops, sendOp{API: "message", Opcode: 2, Slices: [][]byte{zeros}}, sendOp{API: "writev", Opcode: 1, Slices: [][]byte{line[:1000], line[1000:]}},
+							sendOp{API: "file", Opcode: 2, Reader: newChunkReader([][]byte{zeros[:100000], zeros[100000:]}, "sep")}, sendOp{API: "broadcast", Opcode: 1, Slices: [][]byte{line}})
 						if !e2eDirection(c, p, fromServer, bops, parallel, tag+" boundaries", false, 0, pc.utf8) {
 							break
 						}
